@@ -3,7 +3,7 @@ import Pfst.Modifying
 /-
 Histories of raw edits: the entry point `FST.put_src(action='reparse')` (src/fst/fst.py) — and likewise the raw branch of
 `_put_one` (src/fst/fst_put_one.py), already modelled as `Modifying.putRun` — runs the raw reparse inside
-`with parent._modifying(False, True):`, i.e. `enter()` on the containing node, `_reparse_raw`, then `__exit__`
+`with parent._modifying(False, True):`, i.e. `enter()` on the containing node, `_reparse_raw` (`runRaw`: incremental attempt, guard, whole-source fallback), then `__exit__`
 (`success()` without exception, `fail()` with one).  This file composes the order-of-effects machine of
 `Pfst/Raw.lean` with the registry model of `Pfst/Modifying.lean` (C12) and runs sequences of edits on one world
 (lines + tree + the process-global registry).  No imports except import-free model files.
@@ -25,44 +25,46 @@ structure Edit where
   rect : Rect
 
 /-- `with parent._modifying(False, True): return parent._reparse_raw(code, ln, col, end_ln, end_col)` -/
-def rawPut {T W : Type} (parse : Lines → Option W) (fix : T → W → T) (w : World T) (e : Edit) : World T × Option Exc :=
+def rawPut {T W : Type} (parse : Lines → Option W) (guard : W → Bool) (fix : T → W → T) (parseFull : Lines → Option T)
+    (w : World T) (e : Edit) : World T × Option Exc :=
   match enter e.node true false w.reg with
   | .error x => (w, some x)                                   -- `__enter__` raised: body not run
   | .ok reg1 =>
-    let m := runBase parse fix w.st (e.copyOf w.st.lines) e.new e.rect
+    let m := runRaw parse guard fix parseFull w.st (e.copyOf w.st.lines) e.new e.rect
     let exc := if m.raised then some (Exc.user true) else none
     match exit_ e.node.root exc reg1 with                      -- `__exit__`: success() or fail()
     | .ok reg2 => (⟨m.self, reg2⟩, exc)
     | .error x => (⟨m.self, reg1⟩, some x)
 
 /-- A history of requests on the same world, refused ones included; the outcome of every step is recorded. -/
-def runSeq {T W : Type} (parse : Lines → Option W) (fix : T → W → T) : World T → List Edit → World T × List (Option Exc)
+def runSeq {T W : Type} (parse : Lines → Option W) (guard : W → Bool) (fix : T → W → T) (parseFull : Lines → Option T) :
+    World T → List Edit → World T × List (Option Exc)
   | w, [] => (w, [])
   | w, e :: es =>
-    let a := rawPut parse fix w e
-    let b := runSeq parse fix a.1 es
+    let a := rawPut parse guard fix parseFull w e
+    let b := runSeq parse guard fix parseFull a.1 es
     (b.1, a.2 :: b.2)
 
 /-- NOT the code: the manual protocol `m = enter(); r = _reparse_raw(); m.success(); return r` without `fail()` on the
 exception path (a refactoring that looks equivalent on every single call). -/
-def rawPutLeaky {T W : Type} (parse : Lines → Option W) (fix : T → W → T) (w : World T) (e : Edit) :
-    World T × Option Exc :=
+def rawPutLeaky {T W : Type} (parse : Lines → Option W) (guard : W → Bool) (fix : T → W → T)
+    (parseFull : Lines → Option T) (w : World T) (e : Edit) : World T × Option Exc :=
   match enter e.node true false w.reg with
   | .error x => (w, some x)
   | .ok reg1 =>
-    let m := runBase parse fix w.st (e.copyOf w.st.lines) e.new e.rect
+    let m := runRaw parse guard fix parseFull w.st (e.copyOf w.st.lines) e.new e.rect
     if m.raised then (⟨m.self, reg1⟩, some (Exc.user true))   -- exception propagates, nobody releases the entry
     else
       match success e.node.root reg1 with
       | .ok reg2 => (⟨m.self, reg2⟩, none)
       | .error x => (⟨m.self, reg1⟩, some x)
 
-def runSeqLeaky {T W : Type} (parse : Lines → Option W) (fix : T → W → T) :
-    World T → List Edit → World T × List (Option Exc)
+def runSeqLeaky {T W : Type} (parse : Lines → Option W) (guard : W → Bool) (fix : T → W → T)
+    (parseFull : Lines → Option T) : World T → List Edit → World T × List (Option Exc)
   | w, [] => (w, [])
   | w, e :: es =>
-    let a := rawPutLeaky parse fix w e
-    let b := runSeqLeaky parse fix a.1 es
+    let a := rawPutLeaky parse guard fix parseFull w e
+    let b := runSeqLeaky parse guard fix parseFull a.1 es
     (b.1, a.2 :: b.2)
 
 end Pfst.Raw
